@@ -152,6 +152,14 @@ fn extra(cfg: &RunCfg, w: &mut Worker) {
         let text = if v == 3 && i + 1 < paras.len() { format!("{}\n\n{}", paras[i], paras[i + 1]) } else { paras[i].clone() };
         grid_variant(v, i, width, false).map(|o| Case::new(if v == 2 { "fill" } else { "wrap" }).text(text).opt(o))
     });
+    // more than 65535 output lines from one paragraph
+    if w.id == 3 || (cfg.thorough && w.id == 7) {
+        let text = "ab ".repeat(70_000 + 1000 * w.id);
+        let mut o = OptSpec::new(2);
+        o.algo = if cfg!(feature = "smawk") { crate::case::Algo::Optimal(crate::case::Pen::DEFAULT) } else { crate::case::Algo::FirstFit };
+        w.run_case(&Case::new("wrap").text(text).opt(o));
+        *w.stats.counters.entry("more_than_65535_lines".to_string()).or_insert(0) += 1;
+    }
     // stress: long texts, located by pointer only (empty indents)
     if cfg.thorough || w.id < 2 {
         let mut r = Rng::stream(cfg.seed, &["C01", "stress"], w.id as u64);
@@ -181,7 +189,7 @@ pub fn prop() -> Prop {
         panic_is_violation: false,
         budget: (1440000, 36000000),
         extra: Some(extra),
-        required: &["multi_line", "borrowed_seen", "owned_seen", "forced_break", "spaces_or_breaks_dropped"],
+        required: &["more_than_65535_lines", "multi_line", "borrowed_seen", "owned_seen", "forced_break", "spaces_or_breaks_dropped"],
         known: Some(known),
     }
 }
